@@ -16,7 +16,8 @@ TEXT = ("split_*: for every accepted string the string is a valid URI-reference 
         "unix socket, port, path, query, fragment are exactly the components of the reference split (ref/rfc3986_ref.h, appendix B + section 3 ABNF); for every refused "
         "string the reference says invalid or port > 65535 (completeness). rt_* / unix*: evhttp_uri_join of a parsed URI succeeds and the result parses with the same "
         "flags into identical components; evhttp_uri_free releases everything. set_*: after the setters accepted a set of components, the getters return them, "
-        "and evhttp_uri_join either refuses or produces a string that parses (same flags) into exactly those components; a refusing setter leaves the URI unchanged.")
+        "and evhttp_uri_join either refuses or produces a string that parses (same flags) into exactly those components; a refusing setter leaves the URI unchanged. join_limit: evhttp_uri_join succeeds exactly when text + NUL fit into `limit`, "
+        "never writes at or behind buf[limit], and its text does not depend on the limit.")
 NOTE = ("FINDINGS (all reproduced natively, fixed in /repo): (1) UNIX_SOCKET URIs lost path/query/fragment -- 'http://unix:/run/control.sock:/controller' parsed with "
         "path '/run/control.sock' (fixes/C28-unixsocket-path); (2) IPvFuture grammar: '[v8.]' accepted, '[V1.o]' refused (fixes/C28-ipvfuture-grammar); (3) setters + join "
         "wrote URIs that parse into different components: port > 65535, path '//x' or 'a:b' without authority/scheme, userinfo/port without host, unix socket with ':' / '@' "
@@ -28,7 +29,7 @@ ASSUMPTIONS = ["allocation does not fail", "evbuffer API behaves as documented (
                "input strings are NUL-terminated and within the stated bounds"]
 DESIGN_REF = "DESIGN.md §5 C28"
 
-def parse_ob(name, n, prefix="", flags=None, extra=(), timeout=900, mem=6, desc="", solver="cadical"):
+def parse_ob(name, n, prefix="", flags=None, extra=(), timeout=900, mem=3, desc="", solver="cadical"):
     L = len(prefix) + n
     J = 2 * L + 2
     B = J + 2
@@ -40,7 +41,7 @@ def parse_ob(name, n, prefix="", flags=None, extra=(), timeout=900, mem=6, desc=
     return dict(name=name, harness="C28_uri.c", entry="harness_parse", defines=d, unwind=L + 3, unwindset=us,
                 cbmc=["--object-bits", "10"], solver=solver, timeout=timeout, mem_gb=mem, desc=desc)
 
-def setters_ob(name, ks=-1, ku=-1, kh=-1, kx=-1, kp=-1, kq=-1, kf=-1, port=None, flags=None, extra=(), timeout=900, mem=6, desc="", solver="cadical"):
+def setters_ob(name, ks=-1, ku=-1, kh=-1, kx=-1, kp=-1, kq=-1, kf=-1, port=None, flags=None, extra=(), timeout=900, mem=3, desc="", solver="cadical"):
     """k* = longest string the solver may set for that component (-1: never set); port = (lo, hi) or None"""
     pos = lambda k: max(k, 0)
     plen = 0 if port is None else 1 + max(len(str(port[0])), len(str(port[1])))
@@ -72,9 +73,9 @@ def obligations(tier):
                  desc="parse-join-parse: any string <= %d bytes, all 8 flag combinations" % nr),
         parse_ob("rt_auth", na, prefix="//", extra=RT + ["VP_WIT_PORT"], timeout=T,
                  desc="parse-join-parse: '//' + any string <= %d bytes, all 8 flag combinations" % na),
-        parse_ob("unix", nu, prefix="//unix:", flags=8, extra=["VP_WIT_UNIX"], timeout=T,
-                 desc="components + parse-join-parse: '//unix:' + any string <= %d bytes, UNIX_SOCKET" % nu),
-        dict(parse_ob("join_limit", 3 if q else 5, timeout=T, desc="evhttp_uri_join size limit: parsed URI of any string <= %d bytes, any limit, all flags" % (3 if q else 5)), entry="harness_join_limit", unwind=2 * (3 if q else 5) + 4),
+        parse_ob("unix", nu, prefix="//unix:", flags=8, extra=["VP_WIT_UNIX"] + (["VP_NO_WIT_QF", "VP_ONLY_SPLIT"] if q else []), timeout=T, mem=3 if q else 5,
+                 desc="components%s: '//unix:' + any string <= %d bytes, UNIX_SOCKET" % ("" if q else " + parse-join-parse", nu)),
+        dict(setters_ob("join_limit", kh=1 if q else 2, kp=2 if q else 3, kq=-1 if q else 1, flags=1, timeout=T, desc="evhttp_uri_join size limit: host, path%s set through the setters, any limit up to the buffer size" % ("" if q else ", query")), entry="harness_join_limit", unwind=12 if q else 18),
         setters_ob("set_noauth", ks=1, kp=3, extra=["VP_WIT_REL"], timeout=T, desc="setters+join, no authority: scheme<=1, path<=3 bytes, all flags"),
         setters_ob("set_qf", kp=1, kq=1, kf=1, extra=["VP_WIT_REL"], timeout=T, desc="setters+join: path<=1 query<=1 fragment<=1, all flags"),
         setters_ob("set_nohost", ku=1, port=(-2, 9), kp=1, timeout=T, desc="setters+join, userinfo/port without host: userinfo<=1, port in [-2,9], path<=1"),
@@ -83,7 +84,7 @@ def obligations(tier):
     if q:
         obs += [
             setters_ob("set_host", ku=1, kh=1, port=(-2, 9), kp=1, extra=["VP_WIT_FULL"], timeout=T, desc="setters+join: userinfo<=1 host<=1 port in [-2,9] path<=1, all flags"),
-            setters_ob("set_unix", kh=0, kx=1, port=(-1, 0), kp=1, flags=8, timeout=T, desc="setters+join, UNIX_SOCKET: host<=0 socket<=1 port in [-1,0] path<=1"),
+            setters_ob("set_unix", ku=0, kh=0, kx=1, port=(-1, 0), kp=1, flags=8, timeout=T, desc="setters+join, UNIX_SOCKET: userinfo<=0 host<=0 socket<=1 port in [-1,0] path<=1"),
         ]
     else:
         obs += [
@@ -98,4 +99,7 @@ def obligations(tier):
             setters_ob("set_v6", kh=4, port=(-1, 1), kp=1, extra=["VP_WIT_V6"], flags=4, timeout=T, desc="setters+join, HOST_STRIP_BRACKETS: host<=4 (IP-literals) port in [-1,1] path<=1"),
             dict(parse_ob("split_any_ndebug", ns, extra=SP, timeout=T, desc="NDEBUG twin of split_any at <= %d bytes" % ns), ndebug=True),
         ]
+    # longest first: the driver starts jobs in list order, this keeps the tail of the schedule short
+    heavy = ["set_unix", "set_host", "rt_auth", "rt_any", "unix", "unix_ui", "rt_v6", "split_any", "split_auth"]
+    obs.sort(key=lambda o: heavy.index(o["name"]) if o["name"] in heavy else len(heavy))
     return obs
